@@ -9,7 +9,11 @@ def jobs(tier, seed):
     quick = tier == "quick"
     J = []
     cfgs = ["L-gas", "V-O2"] if quick else ["L-gas", "L-none", "L-codesize", "V-O2", "V-none", "V-O3", "V-Os"]
-    for tid, src in E.family(quick).items():
+    from vverif.contracts.extcalls import ordering_family
+
+    fam = dict(E.family(quick))
+    fam.update(ordering_family())
+    for tid, src in fam.items():
         for cfg in cfgs:
             J.append({"id": f"C08/G/effects[{tid};{cfg}]", "fn": "vverif.contracts.source_sem:job_src", "args": ("effects." + tid, src, cfg), "functions": S.FUNCS, "engine": "GenVC"})
     return J
